@@ -1,2 +1,2 @@
-import Hive.Model.DList
-def main : IO Unit := Hive.Proto.run Hive.DList.init Hive.DList.stepLine
+import Hive.Model.DListConc
+def main : IO Unit := Hive.Proto.run Hive.DList.init Hive.DList.stepLineC
